@@ -104,7 +104,86 @@ def gen_cases(rng, tier):
         c["tags"] = ["generic"]
         c["generic"] = True
         cases.append(c)
+    # generic converters as OBJECTS that are registered, registered again and
+    # removed (plain instances and bound methods - the latter are equal but not
+    # identical from one access to the next)
+    for gi in range(12 if tier == "thorough" else 4):
+        cases.append(gen_generic_seq(rng, gi))
     return cases
+
+
+def gen_generic_seq(rng, gi):
+    cls = f"G{gi}"
+    units = [f"g{gi}u{i}" for i in range(4)]
+    ops = [["decl_class", cls, "-", "-", "0", "-"]] + [["new_unit", cls, u, "none"] for u in units]
+    tables = {}
+    for name in ("P", "Q", "R"):
+        rows = []
+        for _ in range(rng.randint(1, 3)):
+            u, v = rng.sample(units, 2)
+            rows.append((u, v, rng.choice([Fraction(2), Fraction(1, 3), Fraction(-5, 2), Fraction(10)]),
+                         rng.choice([Fraction(0), Fraction(7), Fraction(-1, 4)])))
+        tables[name] = rows
+        ops.append(["conv_obj", name, cls, C14.fmt_rows(rows)])
+    nsetup = len(ops)
+    for _ in range(rng.randint(8, 25)):
+        r = rng.random()
+        if r < .3:
+            ops.append(["conv_reg", cls, rng.choice("PQR")])
+        elif r < .45:
+            ops.append(["conv_unreg", cls, rng.choice("PQR")])
+        elif r < .6:
+            ops.append(["conv_list", cls])
+        else:
+            u, v = rng.sample(units, 2)
+            a = rat(Fraction(rng.randint(-50, 50), rng.choice([1, 2, 3])))
+            ops.append(["q_conv", f"{a}@{u}", v, _money.MODE])
+    ops.append(["conv_list", cls])
+    return {"ops": ops, "fork": True, "nsetup": nsetup, "generic_seq": True, "cls": cls,
+            "tables": {n: [[f, t, rat(k), rat(o)] for f, t, k, o in rows] for n, rows in tables.items()},
+            "tags": ["generic-objects"]}
+
+
+def oracle_generic_seq(case, impl):
+    from common import parse_rat
+    fails = []
+    tables = {n: {(f, t): (parse_rat(k), parse_rat(o)) for f, t, k, o in rows}
+              for n, rows in case["tables"].items()}
+    reg = []
+    for i, (o, out) in enumerate(zip(case["ops"], impl)):
+        if i < case["nsetup"]:
+            if not out.startswith("ok"):
+                fails.append({"site": "setup", "msg": f"{o} -> {out}"})
+            continue
+        if o[0] == "conv_reg":
+            if o[2] not in reg:
+                reg.append(o[2])
+            exp = "ok"
+        elif o[0] == "conv_unreg":
+            if o[2] in reg:
+                reg.remove(o[2]); exp = "ok"
+            else:
+                exp = "err ValueError"
+        elif o[0] == "conv_list":
+            exp = "ok " + ",".join(reversed(reg))
+        else:
+            a, _, u = o[1].rpartition("@")
+            a, v = parse_rat(a), o[2]
+            res = None
+            for n in reversed(reg):
+                t = tables[n]
+                if (u, v) in t:
+                    k, off = t[(u, v)]
+                    res = k * a + off
+                elif (v, u) in t:
+                    k, off = t[(v, u)]
+                    res = (a - off) / k
+                if res is not None:
+                    break
+            exp = "err UnitConversionError" if res is None else f"ok qty {rat(res)}@{v}:{case['cls']}"
+        if out != exp:
+            fails.append({"site": "generic:" + o[0], "msg": f"{o} -> {out}, expected {exp} (registered: {reg})"})
+    return fails
 
 
 def search_cases(rng, focus, broken):
@@ -141,6 +220,8 @@ def grid(cur, x, mode):
 
 
 def oracle(case, impl):
+    if case.get("generic_seq"):
+        return oracle_generic_seq(case, impl)
     if case.get("generic"):
         return C14.oracle(case, impl)
     fails = []
@@ -199,6 +280,8 @@ def oracle(case, impl):
 
 
 def nontrivial_key(case, impl):
+    if case.get("generic_seq"):
+        return tuple((o[0], o[2]) for o in case["ops"] if o[0] in ("conv_reg", "conv_unreg"))
     seq = tuple((o[1], o[2]) for o in case["ops"] if o[0] == "mc_stack")
     depth, mx, rejected = 0, 0, False
     for o, out in zip(case["ops"], impl):
